@@ -43,9 +43,28 @@ package state
 //@   check    [revision-found-by-id] 0 <= idx && idx < old(len(self.validRevisions)) && old(self.validRevisions[idx].id) == revid && len(self.validRevisions) == idx
 //@   ensures  [this-and-later-revisions-invalidated] forall(a, 0, len(self.validRevisions), self.validRevisions[a].id < revid) && len(self.validRevisions) <= old(len(self.validRevisions))
 
+// dirty accounting: journal.dirties[a] counts the journalled changes of account a that are still in force (plus explicit
+// dirty() marks); undoing entries takes exactly their own marks away, so an account with a surviving change stays dirty
+// and is written to the trie at Finalise/Commit
+//@ spec dirtHas(e Iface) Bool
+//@ spec dirtAddr(e Iface) common.Address
+//@ spec dirtCnt(e IntIfaceArr, a common.Address, lo Int, hi Int) Int
+//@ axiom dirtCntEmpty: forall(e, IntIfaceArr, forall(a, common.Address, forall(lo, Int, trigger(dirtCnt(e, a, lo, lo)), dirtCnt(e, a, lo, lo) == 0)))
+//@ axiom dirtCntStep: forall(e, IntIfaceArr, forall(a, common.Address, forall(lo, Int, forall(hi, Int, trigger(dirtCnt(e, a, lo, hi)), dirtCnt(e, a, lo, hi) >= 0 && (lo < hi ==> dirtCnt(e, a, lo, hi) == dirtCnt(e, a, lo, hi - 1) + ite(dirtHas(e[hi - 1]) && dirtAddr(e[hi - 1]) == a, 1, 0))))))
+// (the clauses below speak about ONE address, anyAddr(), about which nothing is known: what is proved for it holds for
+// every address; a quantifier over addresses - arrays, as map keys - is beyond the solvers' array theory)
+//@ spec anyAddr() common.Address
+//@ define dirtVal(j *journal, a common.Address) Int = ite(has(j.dirties, a), j.dirties[a], 0)
+
 //@ func (*journal).revert
 //@   props C11
 //@   requires j != nil && 0 <= snapshot && snapshot <= len(j.entries)
+//@   invariant-assumed has(j.dirties, anyAddr()) ==> j.dirties[anyAddr()] > 0
+//@   invariant-assumed dirtVal(j, anyAddr()) >= dirtCnt(elems(j.entries), anyAddr(), off(j.entries) + snapshot, off(j.entries) + len(j.entries))
+//@   ensures  [undone-entries-take-only-their-own-dirty-marks] dirtVal(j, anyAddr()) == old(dirtVal(j, anyAddr())) - old(dirtCnt(elems(j.entries), anyAddr(), off(j.entries) + snapshot, off(j.entries) + len(j.entries)))
+//@   ensures  [an-account-with-a-surviving-change-stays-dirty] has(j.dirties, anyAddr()) == (dirtVal(j, anyAddr()) > 0)
+//@   loop 0 invariant dirtVal(j, anyAddr()) == old(dirtVal(j, anyAddr())) - old(dirtCnt(elems(j.entries), anyAddr(), off(j.entries) + snapshot, off(j.entries) + len(j.entries))) + dirtCnt(elems(j.entries), anyAddr(), off(j.entries) + snapshot, off(j.entries) + i + 1)
+//@   loop 0 invariant (has(j.dirties, anyAddr()) ==> j.dirties[anyAddr()] > 0) && elems(j.entries) == old(elems(j.entries)) && j.dirties == old(j.dirties)
 //@   nosafety
 // (no journal entry touches the list of revisions: assumed frame)
 //@   trusted-assigns allbut(revision)
